@@ -87,6 +87,10 @@ func (w *World) execC19(st *Step) (res StepResult) {
 			res.Out = "err"
 		}
 	case "ops":
+		// upstream's merge helper is vacuous since Go 1.22 (see tools/genc19.py); D=1 runs the
+		// cell with the tokeniser it was meant to have
+		c19RepairMerge = st.D == 1
+		defer func() { c19RepairMerge = false }()
 		for user, op := range []operationInterface{cell.op1, cell.op2} {
 			// user selects the operation's range (upstream's convention); the AUTHOR is
 			// client user, or with J=1 the other one (then the second operation is made by
@@ -140,6 +144,13 @@ func (m *c19Monitor) AfterStep(rc *RunCtx, i int, st *Step, res *StepResult) *Vi
 			}
 		}
 	}
+	if st.Op == "sync" && res.Err == nil {
+		// equal vectors, different trees: reported here (before the generic convergence
+		// monitor) so that the violation names the cell
+		if v := m.compare(rc, i, true); v != nil {
+			return v
+		}
+	}
 	if st.Op == "c19" && res.Err != nil {
 		cell := &c19Cells[mod(st.I, len(c19Cells))]
 		return &Violation{Property: m.prop, Oracle: "pair_edits_apply", Class: "c19_edit_failed:" + st.Flag, Detail: cell.name() + ": " + res.Err.Error(), Step: i}
@@ -147,22 +158,31 @@ func (m *c19Monitor) AfterStep(rc *RunCtx, i int, st *Step, res *StepResult) *Vi
 	return nil
 }
 
-func (m *c19Monitor) Final(rc *RunCtx) *Violation {
-	// tree XML equality on top of the byte equality of the convergence monitor
-	var ref string
-	for k, sc := range rc.AttachedReplicas(0) {
+func (m *c19Monitor) Final(rc *RunCtx) *Violation { return m.compare(rc, rc.I, false) }
+
+// compare: tree XML equality on top of the byte equality of the convergence monitor;
+// sameVector restricts it to replicas that hold the same version vector (mid-run).
+func (m *c19Monitor) compare(rc *RunCtx, i int, sameVector bool) *Violation {
+	refs := map[string]string{}
+	for _, sc := range rc.AttachedReplicas(0) {
 		t := sc.Docs[0].Doc.Root().GetTree("t")
 		if t == nil {
 			continue
 		}
+		key := ""
+		if sameVector {
+			key = sc.Docs[0].Doc.VersionVector().Marshal()
+		}
 		x := t.ToXML()
-		if k == 0 {
-			ref = x
+		if ref, ok := refs[key]; !ok {
+			refs[key] = x
 		} else if x != ref {
 			cell := &c19Cells[mod(rc.Cfg.Extra["cell"], len(c19Cells))]
-			return &Violation{Property: m.prop, Oracle: "pair_converges", Class: "tree_xml_diverged", Detail: fmt.Sprintf("%s: %s vs client %d %s", cell.name(), ref, sc.Idx, x), Step: rc.I}
+			return &Violation{Property: m.prop, Oracle: "pair_converges", Class: "tree_xml_diverged", Detail: fmt.Sprintf("%s: %s vs client %d %s", cell.name(), ref, sc.Idx, x), Step: i}
 		}
-		rc.W.probe("c19_xml_compared")
+		if !sameVector {
+			rc.W.probe("c19_xml_compared")
+		}
 	}
 	return nil
 }
@@ -173,8 +193,9 @@ func c19Config(r *rand.Rand) *RunConfig {
 	if n == 0 {
 		n = 1
 	}
-	cell, order, swap := r.IntN(n), r.IntN(2), r.IntN(2)
+	cell, order, swap, repair := r.IntN(n), r.IntN(2), r.IntN(2), r.IntN(2)
 	if CurrentIndex >= 0 {
+		repair = (CurrentIndex / (4 * n)) % 2
 		// the matrix is swept by run index: every cell, both sync orders, and both
 		// assignments of the two operations to the two clients (the operations carry equal
 		// lamports, so the AUTHOR decides which one is later: upstream's test leaves that to
@@ -182,7 +203,7 @@ func c19Config(r *rand.Rand) *RunConfig {
 		cell, order, swap = CurrentIndex%n, (CurrentIndex/n)%2, (CurrentIndex/(2*n))%2
 	}
 	return &RunConfig{Clients: 3, Docs: 1, Projects: 1, Steps: 16, SnapshotThreshold: 4, SnapshotInterval: 1000, SnapshotCacheSize: 10,
-		Extra: map[string]int{"cell": cell, "order": order, "cells": n, "swap": swap}}
+		Extra: map[string]int{"cell": cell, "order": order, "cells": n, "swap": swap, "repair_merge": repair}}
 }
 
 // c19Next is a fixed script: the cell and the sync order are the only choices.
@@ -196,7 +217,7 @@ func c19Next(rc *RunCtx) *Step {
 		{Op: "activate", C: 0}, {Op: "activate", C: 1}, {Op: "activate", C: 2},
 		{Op: "attach", C: 0, Opts: &AttachOp{}}, {Op: "attach", C: 1, Opts: &AttachOp{}},
 		{Op: "c19", Flag: "init", I: cell}, {Op: "sync", C: 0}, {Op: "sync", C: 1},
-		{Op: "c19", Flag: "ops", I: cell, J: rc.Cfg.Extra["swap"]},
+		{Op: "c19", Flag: "ops", I: cell, J: rc.Cfg.Extra["swap"], D: rc.Cfg.Extra["repair_merge"]},
 		{Op: "sync", C: a}, {Op: "sync", C: b}, {Op: "sync", C: a},
 		{Op: "attach", C: 2, Opts: &AttachOp{}}, // five changes behind a threshold of four: fed by snapshot
 		{Op: "c19", Flag: "third", I: cell},
